@@ -106,13 +106,15 @@ impl ImageHeader {
     pub fn try_from_reader<B: BufRead>(mut i: B) -> Result<Self> {
         // length in u16 little endian
         let length: usize = i.read_le_u16()?.into();
-        ensure!(length >= 4, "invalid image header length");
+        // the length and the version octet are always there
+        ensure!(length >= 3, "invalid image header length");
 
         let header_version = i.read_u8()?;
 
         match header_version {
             0x01 => {
                 // Only known version is 1
+                ensure!(length >= 4, "invalid image header length");
                 let format = i.read_u8()?;
                 let mut data = i.read_take(length - 4);
                 let header = match format {
